@@ -15,7 +15,8 @@ RULE = {"C09": "generated owner classes with 1-6 tunables (defaults of every sup
                "NetworkTables; distinct = hash of (definition, history)."}
 REQUIRED = {"C09": {"type:boolean": 50, "type:int": 50, "type:double": 50, "type:string": 50, "type:raw": 20, "type:struct:Rotation2d": 20,
                     "type:boolean[]": 20, "type:int[]": 20, "type:double[]": 20, "type:string[]": 20, "type:struct:Rotation2d[]": 10,
-                    "empty-hinted": 30, "writeDefault-true-overwrites": 50, "writeDefault-false-preserves": 50, "writeDefault-false-preserves-falsy": 10, "subtable": 100, "redefines-inherited-tunable": 30, "base-class-instance-bound-first": 30,
+                    "empty-hinted": 30, "writeDefault-true-overwrites": 50, "writeDefault-false-preserves": 50, "writeDefault-false-preserves-falsy": 10, "subtable": 100, "redefines-inherited-tunable": 30, "base-class-instance-bound-first": 30, "statemachine-owner": 50, "negative-duration-value": 30,
+                    "rebound-under-used-name": 50,
                     "owner:components": 100, "owner:autonomous": 50, "owner:root": 50, "via-magicrobot": 30,
                     "py-read-after-nt-write": 500, "nt-read-after-py-write": 500, "two-instances-independent": 100}}
 ASSUMPTIONS = {"C09": ["values written are always of the topic's own type (cross-type writes are rejected by NetworkTables itself)",
@@ -129,7 +130,21 @@ def gen_case(rng, uid):
             ops.append([k, i, t])
         if rng.random() < 0.2:
             ops.append(["adv", rng.choice([0, 1, 20000])])
-    return {"uid": uid, "owner": owner, "tunables": tun, "instances": instances, "ops": ops, "base_instance_first": rng.random() < 0.3}
+    case = {"uid": uid, "owner": owner, "tunables": tun, "instances": instances, "ops": ops, "base_instance_first": rng.random() < 0.3}
+    if owner in ("direct", "component", "component2") and rng.random() < 0.3:
+        # the owner is a magicbot.StateMachine: its timed state's duration is a tunable like any other
+        # (/components/N/state/<state>_duration), including values a dashboard user may type that make no sense (negative)
+        case["sm_owner"] = True
+        case["base_instance_first"] = False
+        tun.append({"attr": "ts_duration", "kind": "float", "writeDefault": False, "subtable": "state", "as_tuple": False, "spelling": 0,
+                    "preexisting": rng.random() < 0.3, "pre_falsy": False, "builtin": True, "signed": True})
+        for op in ops:
+            if op[0] in ("py_write", "py_read", "nt_write", "nt_read") and rng.random() < 0.25:
+                op[2] = len(tun) - 1
+    if rng.random() < 0.3 and owner == "direct":
+        # later in the process another object is bound under a name that was used before
+        case["rebind"] = True
+    return case
 
 
 def build_class(case, base=None):
@@ -149,12 +164,21 @@ def build_class(case, base=None):
             lines.append(f"    {t['attr']} = tunable(b_{t['attr']}, writeDefault={not t['writeDefault']!r})")
         lines.append("    def execute(self):\n        pass")
         lines.append("Base = Mid")
+    if case.get("sm_owner"):
+        from magicbot.state_machine import StateMachine, state as _st, timed_state as _ts
+        ns.update({"StateMachine": StateMachine, "sm_state": _st, "sm_timed": _ts})
+        lines.append("class SMBase(StateMachine, Base):" if ns["Base"] is not object else "class SMBase(StateMachine):")
+        lines.append("    @sm_state(first=True)\n    def idle_state(self):\n        pass")
+        lines.append("    @sm_timed(duration=0.25)\n    def ts(self):\n        pass")
+        lines.append("Base = SMBase")
     lines.append("class Owner(Base):")
     for t in case["tunables"]:
         kw = f"writeDefault={t['writeDefault']!r}"
         if t["subtable"]:
             kw += f", subtable={t['subtable']!r}"
         a = t["attr"]
+        if t.get("builtin"):
+            continue            # created by the timed_state decorator
         if t["kind"].startswith("hintfloat"):
             hint = "float" if t["kind"] == "hintfloat" else "Sequence[float]"
             ns["d_" + a] = value_of(t["kind"], 0)
@@ -290,6 +314,10 @@ def _run_case(acc, case):
                     acc.ev("base-class-instance-bound-first")
                 for inst in case["instances"]:
                     o = cls()
+                    if case.get("sm_owner"):
+                        import logging
+                        o.logger = logging.getLogger(inst["name"])
+                        acc.ev("statemachine-owner")
                     setup_tunables(o, inst["name"], inst["prefix"]) if inst["prefix"] != "components" or stable_hash(inst["name"]) % 2 \
                         else setup_tunables(o, inst["name"])
                     objs.append(o)
@@ -360,6 +388,16 @@ def _run_case(acc, case):
             t = tun[ti]
             ch = chans[(ii, ti)]
             path = topic_path(case["instances"][ii], t)
+            if k in ("py_write", "nt_write") and t.get("signed") and op[3] % 2:
+                v = -value_of(t["kind"], op[3])
+                acc.ev("negative-duration-value")
+                if k == "py_write":
+                    setattr(objs[ii], t["attr"], v)
+                else:
+                    ch.publisher().set(v)
+                reg[(ii, ti)] = v
+                last_writer[(ii, ti)] = "py" if k == "py_write" else "nt"
+                continue
             if k == "py_write":
                 v = value_of(t["kind"], op[3])
                 setattr(objs[ii], t["attr"], tuple(v) if (t["as_tuple"] and isinstance(v, list)) else v)
@@ -387,6 +425,25 @@ def _run_case(acc, case):
                     nt_seen_py += 1
                 if norm(got) != norm(reg[(ii, ti)]):
                     acc.violation("C09/stale-nt", f"{path}: NetworkTables holds {got!r}, latest value set ({last_writer.get((ii, ti), 'setup')} side) is {reg[(ii, ti)]!r}", case, {})
+                    return
+        # ---- a new object bound under a name that was used before: the documented start-up rule applies again
+        if case.get("rebind") and not case.get("sm_owner"):
+            ii = 0
+            inst = case["instances"][ii]
+            o2 = cls()
+            setup_tunables(o2, inst["name"], inst["prefix"])
+            objs_extra.append(objs[ii])
+            objs[ii] = o2
+            acc.ev("rebound-under-used-name")
+            for ti, t in enumerate(tun):
+                want = value_of(t["kind"], 0) if t["writeDefault"] else reg[(ii, ti)]
+                reg[(ii, ti)] = want
+                got = getattr(o2, t["attr"])
+                ntv = chans[(ii, ti)].read()
+                acc.checks += 2
+                if norm(got) != norm(want) or norm(ntv) != norm(want):
+                    acc.violation("C09/rebind-initial-value", f"{topic_path(inst, t)}: a second object bound under the same name reads {got!r} "
+                                  f"(NetworkTables {ntv!r}), expected {want!r} (writeDefault={t['writeDefault']}, value before: {reg[(ii, ti)]!r})", case, {})
                     return
         # ---- instances never share a value: final sweep over every (instance, attribute)
         for (ii, ti), want in reg.items():
